@@ -25,7 +25,7 @@ Grammar makeGrammar()
 {
 	Grammar g;
 	// params: size index, kind, capacity index, seed, how the AnyData is built
-	g.params = { ArgSpec(0, kNumSizes - 1), ArgSpec(0, 4), ArgSpec(0, 3), ArgSpec(1, 200), ArgSpec(0, 5) };
+	g.params = { ArgSpec(0, kNumSizes - 1), ArgSpec(0, 5), ArgSpec(0, 3), ArgSpec(1, 200), ArgSpec(0, 5) };
 	g.maxDepth = 1;
 	g.maxTotalOps = 12;
 	Level top;
@@ -51,7 +51,7 @@ Verdict run(const Program & p, const std::string &)
 	ledger().reset();
 	LeakScope scope;
 	const int si = p.params.size() > 0 ? ((p.params[0] % kNumSizes) + kNumSizes) % kNumSizes : 0;
-	const int kind = p.params.size() > 1 ? ((p.params[1] % 5) + 5) % 5 : 0;
+	const int kind = p.params.size() > 1 ? ((p.params[1] % 6) + 6) % 6 : 0;
 	const int mi = p.params.size() > 2 ? ((p.params[2] % 4) + 4) % 4 : 0;
 	CaseFn fn = mi == 0 ? caseTable1(si, kind) : mi == 1 ? caseTable24(si, kind) : mi == 2 ? caseTable32(si, kind) : caseTable64(si, kind);
 	CaseResult r = fn(p);
@@ -65,6 +65,7 @@ Verdict run(const Program & p, const std::string &)
 	if(kind == 2) v.classes.push_back("move_only");
 	if(kind == 3) v.classes.push_back("shared_ownership");
 	if(kind == 4) v.classes.push_back("trivial_copy_user_move");
+	if(kind == 5) v.classes.push_back("initializer_list_constructor_over_itself");
 	if(queue) v.classes.push_back("queue_round_trip");
 	v.nontrivial = nearCap && kind != 0 && (moves >= 2 || queue);
 	v.trace = "AnyData<" + std::to_string(kCaps[mi]) + "> holding P<" + std::to_string(N) + "," + std::to_string(kind) + ">";
@@ -79,7 +80,7 @@ Verdict run(const Program & p, const std::string &)
 // bounded-exhaustive part: every (size, kind, capacity) triple with a fixed script: 3 moves + both queue round trips
 std::string enumerate(const std::string &, const std::function<bool (const Program &)> & sink)
 {
-	for(int si = 0; si < kNumSizes; ++si) for(int kind = 0; kind < 5; ++kind) for(int mi = 0; mi < 4; ++mi) for(int how = 0; how < 3; ++how) {
+	for(int si = 0; si < kNumSizes; ++si) for(int kind = 0; kind < 6; ++kind) for(int mi = 0; mi < 4; ++mi) for(int how = 0; how < 3; ++how) {
 		Program p;
 		p.params = { si, kind, mi, 7 + si, how };
 		Op mv; mv.kind = A_MOVE;
@@ -88,7 +89,7 @@ std::string enumerate(const std::string &, const std::function<bool (const Progr
 		p.ops = { mv, mv, q0, mv, q1 };
 		if(! sink(p)) return "aborted at the first failure";
 	}
-	return "all 19 sizes x 5 kinds x 4 capacities x 3 construction forms with the script move,move,queue(process),move,queue(processOne)";
+	return "all 19 sizes x 6 kinds x 4 capacities x 3 construction forms with the script move,move,queue(process),move,queue(processOne)";
 }
 
 } // namespace
